@@ -2,9 +2,11 @@
 # Model of the single-file external-data save (property C08)
 
 Transcribes `_write_external_data` and the serial `_ExternalDataWriter._write_serial`
-(`src/onnx_ir/external_data.py` 453-506 and 573-586), the sharded pre-flight
-(`_check_no_existing_shard_files` 289-315, called at 833-836, followed by the per-shard saves
-897-911) and the "load small external tensors first" step of `unload_from_model` (1055-1059).
+(`src/onnx_ir/external_data.py` 453-509 and 576-589), the sharded pre-flight
+(`_check_no_existing_shard_files` 289-315, called at 836-839, followed by the per-shard saves
+900-914) and the "load small external tensors first" step of `unload_from_model` (1058-1064).
+(Line numbers: /repo after `fix:` 44c0eb3, which moved the collection of the overwritten tensors
+in front of `mkdtemp`.)
 
 The file system is `path -> inode -> (bytes, mode)`.  Paths are either names the caller can
 spell (`Path.user`) or the two paths created by `tempfile.mkdtemp` (`tmpDir`) and the file inside
@@ -13,7 +15,7 @@ it (`tmpFile`): that `mkdtemp` returns a directory that did not exist is the con
 
 A save is the list of effects the code performs.  Every effect is a *fault point*: under the
 exception semantics the effect does nothing (a `write` may write a prefix of its bytes) and the
-Python exception handlers run (`finally:` 494-498); a crash is "the process stops after some
+Python exception handlers run (`finally:` 497-501); a crash is "the process stops after some
 step", so the crash states are exactly the visited states `Res.steps` of a run.
 
 Core Lean only (linked into the driver).
@@ -24,7 +26,7 @@ abbrev Bytes := List Nat
 
 /-- Paths.  `user n` is any path spelled by the caller (destination, other files in the
 directory, the path of an `ExternalTensor`); `tmpDir` is what `tempfile.mkdtemp(dir=..., prefix=...)`
-returned (458-461) and `tmpFile` is `os.path.join(temporary_dir, basename)` (462). -/
+returned (467-470) and `tmpFile` is `os.path.join(temporary_dir, basename)` (471). -/
 inductive Path where
   | user (name : String)
   | tmpDir
@@ -76,31 +78,31 @@ structure St where
 
 /-- The effects (one per file-system call, tensor call-back or `ExternalTensor` state change). -/
 inductive Eff where
-  /-- `tempfile.mkdtemp(dir=destination_dir, prefix=".<basename>.")` 458-461 -/
+  /-- `tempfile.mkdtemp(dir=destination_dir, prefix=".<basename>.")` 467-470 -/
   | mkdtemp
-  /-- `open(temporary_path, "wb")` 575 -/
+  /-- `open(temporary_path, "wb")` 578 -/
   | openTmp
-  /-- `self._invoke_callback(i, tensor, offset)` 582 -/
+  /-- `self._invoke_callback(i, tensor, offset)` 585 -/
   | callback (i : Nat)
   /-- `file.seek(offset)` 391 -/
   | seek (off : Nat)
   /-- one `file.write(chunk)` issued by `tensor.tofile(file)` 395 or `file.write(tensor.tobytes())` 397 -/
   | write (bs : Bytes)
-  /-- leaving the `with open(...)` block 575 -/
+  /-- leaving the `with open(...)` block 578 -/
   | closeTmp
-  /-- `tensor.release()` 489-490 (and 272 for small tensors) -/
+  /-- `tensor.release()` 492-493 (and 272 for small tensors) -/
   | release (i : Nat)
-  /-- `shutil.copymode(destination_path, temporary_path)` 492 -/
+  /-- `shutil.copymode(destination_path, temporary_path)` 494-495 -/
   | copymode
-  /-- `os.replace(temporary_path, destination_path)` 493 -/
+  /-- `os.replace(temporary_path, destination_path)` 496 -/
   | replace
-  /-- `os.remove(temporary_path)` under `suppress(FileNotFoundError)` 495-496 -/
+  /-- `os.remove(temporary_path)` under `suppress(FileNotFoundError)` 498-499 -/
   | removeTmp
-  /-- `os.rmdir(temporary_dir)` under `suppress(FileNotFoundError)` 497-498 -/
+  /-- `os.rmdir(temporary_dir)` under `suppress(FileNotFoundError)` 500-501 -/
   | rmdirTmp
-  /-- `tensor.invalidate()` 500-501 -/
+  /-- `tensor.invalidate()` 503-504 -/
   | invalidate (i : Nat)
-  /-- `tensor.numpy().copy()` of a small external tensor, 271 (via 1057-1059): `numpy()` maps the
+  /-- `tensor.numpy().copy()` of a small external tensor, 271 (via 1063-1065): `numpy()` maps the
   file if it is not mapped yet (`_core.py` 890-899, 817-831), the copy is kept in memory -/
   | loadSmall (i : Nat) (e : Ext)
   deriving DecidableEq, Repr
@@ -210,8 +212,8 @@ def runList (env : Env) (f : Nat → Option Nat) : List Eff → Nat → St → R
       let r := runList env f es (n + 1) (apply env s e)
       ⟨⟨e, false, apply env s e⟩ :: r.steps, r.final, r.faulted⟩
 
-/-- `_write_external_data` 453-506 with an abstract `body` (what `writer.write()` and the release
-loop do, 471-492) and `post` (the invalidation loop 500-506): `mkdtemp` is outside the `try`;
+/-- `_write_external_data` 453-509 with an abstract `body` (what `writer.write()` and the release
+loop do, 474-495) and `post` (the invalidation loop 503-509): `mkdtemp` is outside the `try`;
 `body` and `os.replace` are inside; the `finally` runs `os.remove` then `os.rmdir` (a failing
 `remove` skips `rmdir`); `post` runs only if nothing raised. `faulted` = an exception leaves the
 function. -/
@@ -230,7 +232,7 @@ def sameFile (fs : FS) (p q : Path) : Bool :=
   | some a, some b => a == b
   | _, _ => false
 
-/-- `overwritten_tensors` 464-469: positions of external tensors whose path is the destination file. -/
+/-- `overwritten_tensors` 461-466 (computed before `mkdtemp`; it reads the file system only): positions of external tensors whose path is the destination file. -/
 def overwrittenFrom (fs : FS) (dest : String) : Nat → List Tensor → List Nat
   | _, [] => []
   | i, t :: ts =>
@@ -238,7 +240,7 @@ def overwrittenFrom (fs : FS) (dest : String) : Nat → List Tensor → List Nat
       | some e => if sameFile fs (.user e.path) (.user dest) then [i] else []
       | none => []) ++ overwrittenFrom fs dest (i + 1) ts
 
-/-- Effects of writing tensor number `i` in `_write_serial` 578-586 + `_write_tensor_at` 385-397. -/
+/-- Effects of writing tensor number `i` in `_write_serial` 581-589 + `_write_tensor_at` 385-397. -/
 def tensorEffs (cb : Bool) (i : Nat) (t : Tensor) : List Eff :=
   (if cb then [.callback i] else []) ++ [.seek t.off] ++ t.chunks.map .write
 
@@ -275,7 +277,7 @@ def image (ts : List Tensor) : Bytes :=
 /-- `os.path.exists` for a caller path. -/
 def existsP (fs : FS) (p : Path) : Bool := (fs.file p).isSome || fs.isDir p
 
-/-- `unload_from_model` 1055-1059: small external tensors (position, fields) are copied to memory
+/-- `unload_from_model` 1058-1065: small external tensors (position, fields) are copied to memory
 and released before anything is written. -/
 def loadEffs : List (Nat × Ext) → List Eff
   | [] => []
@@ -289,7 +291,7 @@ def unload (cfg : Cfg) (small : List (Nat × Ext)) (f : Nat → Option Nat) (s0 
   let r := save cfg f l.steps.length l.final
   ⟨l.steps ++ r.steps, r.final, r.faulted⟩
 
-/-- Sequential sharded save, 823-836 and 897-911: one `(destination, tensors)` job per shard;
+/-- Sequential sharded save, 826-839 and 900-914: one `(destination, tensors)` job per shard;
 `_check_no_existing_shard_files` first; then one single-file save per shard, stopping at the
 first exception. -/
 def shardLoop (newMode : Nat) (cb : Bool) (f : Nat → Option Nat) :
